@@ -23,7 +23,9 @@ Inductive shape : rel -> Prop :=
 | sh_root : shape (Rel root_id s_parent group_id)
 | sh_grp k : good_key k -> shape (Rel group_id s_parent (role_id k))
 | sh_att r p : good_key r -> good_key p -> shape (Rel (role_id r) s_parent (policy_id p))
-| sh_asg r s : good_key r -> sub_ok s -> shape (Rel (role_id r) s_parent s).
+| sh_asg r s : good_key r -> sub_ok s -> shape (Rel (role_id r) s_parent s)
+| sh_gsub s : sub_ok s -> shape (Rel group_id s_parent s)
+| sh_gpol p : good_key p -> shape (Rel group_id s_parent (policy_id p)).
 
 (* keyed form of a "parent" edge *)
 Definition lk (o : ost) (a b : id) : Prop :=
@@ -146,7 +148,8 @@ Section shapes.
 
   Lemma edge_shape a b : edge o a b -> shape (Rel a s_parent b).
   Proof.
-    intros (k & r & H & <- & <-). pose proof (Hsh _ _ H) as S. destruct S; simpl; constructor; auto.
+    intros (k & r & H & <- & <-). pose proof (Hsh _ _ H) as S.
+    destruct S; simpl; [apply sh_root|apply sh_grp|apply sh_att|apply sh_asg|apply sh_gsub|apply sh_gpol]; auto.
   Qed.
 
   Lemma no_out_policy p b : ~ edge o (policy_id p) b.
@@ -159,6 +162,8 @@ Section shapes.
     - exact (sub_ne_group _ Hs eq_refl).
     - exact (sub_ne_role _ _ Hs eq_refl).
     - exact (sub_ne_role _ _ Hs eq_refl).
+    - exact (sub_ne_group _ Hs eq_refl).
+    - exact (sub_ne_group _ Hs eq_refl).
   Qed.
 
   Lemma rtc_no_out t x : (forall b, ~ edge o t b) -> rtc (edge o) t x -> x = t.
@@ -235,7 +240,7 @@ Lemma sim_permitted st c s act objs :
 Proof.
   intros S Hs. rewrite permitted_a_spec. pose proof (sim_wf _ _ S) as Hwf. unfold permitted. split.
   - intros [Hh H]. split; [apply (sim_subj _ _ S); auto|]. intros o Ho.
-    destruct (H o Ho) as (r & cc & p & [Hrs _] & (Hrc & Hpre & _) & Hp & Hg).
+    destruct (H o Ho) as (r & cc & p & [Hrs Hrpre] & (Hrc & Hpre & _) & Hp & Hg).
     destruct Hrs as (k1 & r1 & Hk1 & Hf1 & Hty1 & Ht1).
     pose proof (sim_shape _ _ S _ _ Hk1) as Sh1.
     assert (exists kr, good_key kr /\ r = role_id kr) as (kr & Hkr & ->).
@@ -243,7 +248,9 @@ Proof.
       - exfalso. exact (sub_ne_group _ Hs eq_refl).
       - exfalso. exact (sub_ne_role _ _ Hs eq_refl).
       - exfalso. exact (sub_ne_policy _ _ Hs eq_refl).
-      - eauto. }
+      - eauto.
+      - exfalso. discriminate Hrpre.
+      - exfalso. exact (sub_ne_policy _ _ Hs eq_refl). }
     assert (Hlk1 : lk (r_ont st) (role_id kr) s).
     { apply lk_pedge; auto. exists k1, r1. auto. }
     destruct Hrc as (k2 & r2 & Hk2 & Hf2 & Hty2 & Ht2).
@@ -252,7 +259,7 @@ Proof.
     { destruct r2 as [f2 ty2 t2]; cbn [r_from r_type r_to] in *; subst.
       destruct (shape_from_role _ _ _ Sh2) as [[kp ->]|Hsub].
       - exists kp. split; [|auto]. remember (Rel (role_id kr) s_parent (policy_id kp)) as rr eqn:E.
-        destruct Sh2 as [|k' Hk'|r' p' Hr' Hp'|r' s' Hr' Hs']; injection E as E1 E3; try discriminate E1.
+        destruct Sh2 as [|k' Hk'|r' p' Hr' Hp'|r' s' Hr' Hs'|s' Hs'|p' Hp']; injection E as E1 E3; try discriminate E1.
         + subst. auto.
         + exfalso. subst s'. exact (sub_ne_policy _ _ Hs' eq_refl).
       - exfalso. destruct Hsub as (_ & _ & Hx & _). congruence. }
@@ -297,6 +304,7 @@ Definition good_rop (o : rop) : Prop :=
   | RSetOnRole r ps => good_key r /\ Forall good_key ps
   | RAssign s r | RUnassign s r => sub_ok s /\ good_key r
   | RSubject s | RDelSubject s => sub_ok s
+  | RGroupAdd b | RGroupRemove b => sub_ok b \/ (id_type b = s_policy /\ good_key (id_key b))
   | REnforce s _ _ _ => sub_ok s
   | RBegin | RCommit | RAbort => True
   end.
@@ -707,6 +715,60 @@ Proof.
     + intros (H & _ & Hn). auto.
 Qed.
 
+(* the Users group as an additional (non-role) parent *)
+Lemma sim_group_add st c b :
+  sim st c -> good_id b -> shape (Rel group_id s_parent b) ->
+  (forall x, ~ edge (r_ont st) b x) -> b <> group_id ->
+  sim (with_ont st (define_relationship fixed (r_ont st) group_id s_parent b)).1 c.
+Proof.
+  intros S Hb Hshape Hno Hne. pose proof S as [Hwf Hsh Hgrp Hsub Hrol Hrolg Hpol Hpolg Hpres Hasg Hatt].
+  assert (Hn : ~ rtc (edge (r_ont st)) b group_id).
+  { intros H. apply (rtc_no_out (r_ont st)) in H; auto. }
+  destruct (define_rel_ok fixed (r_ont st) group_id b eq_refl eq_refl Hwf Hsh good_group Hb Hn) as [Hok Hno'].
+  assert (Hrel : good_rel (Rel group_id s_parent b))
+    by (split; [|split]; auto using good_ty_parent, good_group).
+  cbn [with_ont fst].
+  destruct (decide (has (r_ont st) group_id /\ has (r_ont st) b)) as [Hboth|Hnb].
+  - destruct (Hok Hboth) as [_ [[-> _]|[-> _]]]; [destruct st; exact S|].
+    constructor; cbn [r_ont r_pols]; auto.
+    + apply wf_add_rel; auto; apply Hboth.
+    + intros k r' H. cbn [add_rel o_rels] in H. apply lookup_insert_Some in H as [[_ <-]|[_ H]]; eauto.
+    + intros r s Hr Hs. rewrite lk_add_rel by (auto with rbac; apply Hs). rewrite Hasg by auto.
+      split; [auto|]. intros [H|[E _]]; [auto|]. exfalso. exact (role_ne_group _ E).
+    + intros r p Hr Hp. rewrite lk_add_rel by auto with rbac. rewrite Hatt by auto.
+      split; [auto|]. intros [H|[E _]]; [auto|]. exfalso. exact (role_ne_group _ E).
+  - destruct (Hno' Hnb) as [-> _]. destruct st; exact S.
+Qed.
+
+Lemma sim_group_remove st c b :
+  sim st c -> good_id b ->
+  sim (with_ont st (delete_relationship (r_ont st) group_id s_parent b)).1 c.
+Proof.
+  intros S Hb. destruct S as [Hwf Hsh Hgrp Hsub Hrol Hrolg Hpol Hpolg Hpres Hasg Hatt].
+  assert (Hrel : good_rel (Rel group_id s_parent b))
+    by (split; [|split]; auto using good_ty_parent, good_group).
+  cbn [with_ont fst]. constructor; cbn [r_ont r_pols]; auto.
+  - apply delete_relationship_wf; auto.
+  - intros k r' H. cbn [delete_relationship fst o_rels] in H. apply lookup_delete_Some in H as [_ H]. eauto.
+  - intros r s Hr Hs. rewrite lk_delete_relationship by auto. rewrite Hasg by auto.
+    split; [|tauto]. intros H. split; [auto|]. intros [E _]. exact (role_ne_group _ E).
+  - intros r p Hr Hp. rewrite lk_delete_relationship by auto. rewrite Hatt by auto.
+    split; [|tauto]. intros H. split; [auto|]. intros [E _]. exact (role_ne_group _ E).
+Qed.
+
+Lemma group_target b :
+  sub_ok b \/ (id_type b = s_policy /\ good_key (id_key b)) ->
+  good_id b /\ shape (Rel group_id s_parent b) /\ b <> group_id /\
+  forall o, (forall k r, o_rels o !! k = Some r -> shape r) -> forall x, ~ edge o b x.
+Proof.
+  intros [Hs|[Ht Hk]].
+  - split; [apply Hs|]. split; [constructor; auto|]. split; [apply sub_ne_group; auto|].
+    intros o Hsh x. apply no_out_sub; auto.
+  - destruct b as [t k]. cbn [id_type id_key] in *. subst t. change (Id s_policy k) with (policy_id k).
+    split; [apply good_key_policy, Hk|]. split; [apply sh_gpol; auto|].
+    split; [apply policy_ne_group|]. intros o Hsh x. apply no_out_policy; auto.
+Qed.
+
 (* ---- histories ---- *)
 Definition is_data (o : rop) : bool :=
   match o with RBegin | RCommit | RAbort | REnforce _ _ _ _ => false | _ => true end.
@@ -725,6 +787,9 @@ Proof.
   - destruct Ho. apply sim_unassign_role; auto.
   - apply sim_subject; auto.
   - apply sim_del_subject; auto.
+  - destruct (group_target b Ho) as (Hg & Hshp & Hne & Hno).
+    apply sim_group_add; auto. apply Hno. apply S.
+  - destruct (group_target b Ho) as (Hg & _). apply sim_group_remove; auto.
 Qed.
 
 Definition sim_sys (s : rsys) (a : asys) : Prop :=
